@@ -11,6 +11,7 @@ import (
 	"strings"
 	"sync"
 	"testing"
+	"time"
 	"unsafe"
 
 	"github.com/VKCOM/statshouse/internal/verif/mc"
@@ -160,7 +161,7 @@ func c29sRun(x *mc.Exec, sc c29sScenario, rep *mc.Report) mc.Verdict {
 	var heldSum int64
 	res := vsched.Run(x, vsched.Config{
 		FreeBlockedSwitch: true,
-		AtQuiescence: func(s *vsched.Sched) { mon.check(s) },
+		AtQuiescence:      func(s *vsched.Sched) { mon.check(s) },
 		Cleanup: func() {
 			for _, c := range cancels {
 				c()
@@ -269,6 +270,11 @@ func c29sFreeRun(rep *mc.Report) {
 			for i := range ctxs {
 				ctxs[i], cancels[i] = context.WithCancel(context.Background())
 			}
+			// a request larger than the size in force waits until its context ends (SetSize racing with an
+			// Acquire): the companion must not hang on it, so plain acquisitions get a context that a watchdog
+			// ends (liveness of the companion only, nothing is judged by it)
+			base, cancelBase := context.WithCancel(context.Background())
+			watchdog := time.AfterFunc(300*time.Millisecond, cancelBase)
 			var wg sync.WaitGroup
 			for _, prog := range sc.threads {
 				prog := prog
@@ -278,7 +284,7 @@ func c29sFreeRun(rep *mc.Report) {
 					for _, op := range prog {
 						switch op.kind {
 						case c29sAcq:
-							if s.Acquire(context.Background(), op.n) == nil {
+							if s.Acquire(base, op.n) == nil {
 								s.Release(op.n)
 							}
 						case c29sAcqCtx:
@@ -301,6 +307,8 @@ func c29sFreeRun(rep *mc.Report) {
 				}()
 			}
 			wg.Wait()
+			watchdog.Stop()
+			cancelBase()
 			for _, c := range cancels {
 				c()
 			}
